@@ -92,4 +92,4 @@ def run(ctx):
                "sp.eye(%s) has one column per *dispatch* variable (a subset selected by type == 'd') but is stacked under op.A, whose "
                "columns are all variables of the base asset: for a base asset with internal variables (MIP storage, plant with minimum "
                "load) the widths differ (ValueError: incompatible column dimensions) - and capacities multiplying binaries are not scaled "
-               "at all" % au.U(eye.args[0]), node=eye)
+               "at all" % au.U(eye.args[0]), node=eye, key="identity block over the dispatch variables stacked under op.A")
